@@ -56,6 +56,18 @@ struct SzLayout {
     template <class F> friend constexpr bool operator==(const mapping& a, const mapping<F>& b) noexcept { return a.inner == b.inner; }
   };
 };
+// index-like class types for the strides array of layout_stride::mapping(extents, array): nothrow conversion to the index type, but a
+// copy constructor that may throw / that does not exist - the constructor takes the array BY CONST REFERENCE and is unconditionally noexcept
+struct ThrowCopyIdx { long v = 1; ThrowCopyIdx() = default; ThrowCopyIdx(const ThrowCopyIdx& o) noexcept(false) : v(o.v) {} constexpr operator long() const noexcept { return v; } };
+struct MoveOnlyIdx { long v = 1; MoveOnlyIdx() = default; MoveOnlyIdx(MoveOnlyIdx&&) = default; MoveOnlyIdx(const MoveOnlyIdx&) = delete; constexpr operator long() const noexcept { return v; } };
+template <class E> std::string strideCtorFacts() {
+  using M = md::layout_stride::mapping<E>; constexpr size_t R = E::rank();
+  std::string s = "sc=";
+  s += num(std::is_nothrow_constructible_v<M, const E&, const std::array<int, R>&>) + num(std::is_nothrow_constructible_v<M, const E&, const std::array<ThrowCopyIdx, R>&>);
+  s += num(noexcept(M(std::declval<const E&>(), std::declval<const std::array<ThrowCopyIdx, R>&>()))) + num(std::is_constructible_v<M, const E&, const std::array<MoveOnlyIdx, R>&>);
+  s += num(std::is_same_v<typename decltype(md::layout_stride::mapping(std::declval<const E&>(), std::declval<const std::array<MoveOnlyIdx, R>&>()))::extents_type, E>);
+  return s;
+}
 // mdspan's own member types: taken from extents_type, whatever the mapping declares
 template <class V> std::string memberTypesMds() {
   using E = typename V::extents_type; using I = typename E::index_type;
